@@ -95,8 +95,9 @@ def shapesOk (r : Gen.Admix.FnRow) (f : List Rat) (grids : List (Array Rat)) (P 
           && (grids.getD r.trapzGrid #[]).size == P.shape.getD r.dest 0))
 
 def applyRow (r : Gen.Admix.FnRow) (f : List Rat) (grids : List (Array Rat)) (P : Dens) : Res :=
-  if !shapesOk r f grids P then .bad
-  else if r.guard f then .raises
+  if f.length != r.nf then .bad
+  else if r.guard f then .raises          -- the guards are evaluated before any array is touched
+  else if !shapesOk r f grids P then .bad
   else
     let gs := r.gridOrder.map fun g => grids.getD g #[]
     let zz := grids.getD r.newGrid #[]
